@@ -179,8 +179,8 @@ def main(tier, seed):
     chk.set('evaluations', n); chk.set('runs_named', named); chk.set('runs_without_dump', crashed)
     chk.cov['_classes'] = classes
     vcheck.finalize_classes(chk)
-    chk.set('rule', 'driver runs (real RunBackendApp path) over models (linear mixes, canonicalisation, unary-encoding, sampled sharing and shape '
-            'families) x acceptance configs %s x cvt:names 0..3 x name files {absent, plain, CRLF, short, col-only, look-alikes of derived '
+    chk.set('rule', 'driver runs (real RunBackendApp path) over models (linear mixes, canonicalisation, unary-encoding, plus a fixed sub-list of the sharing and shape '
+            'families: every k-th model of the deterministic generator order; the list is enumerated completely) x acceptance configs %s x cvt:names 0..3 x name files {absent, plain, CRLF, short, col-only, look-alikes of derived '
             'names, bracketed names with blanks}; judged: completeness, fidelity of original names (file or documented generic names), '
             'derived names start with an NL item name, uniqueness among delivered variables and among delivered constraints. '
             'A class = (config, names mode, file variant, names delivered or not).' % list(ACC))
